@@ -141,5 +141,9 @@ func verifHarness_R1f_FmtF() {
 	a := fmtF(make([]byte, 0, 64), neg, decimalSlice{d: ba[:], nd: nd, dp: dp}, prec)
 	b := verifS_fmtF(make([]byte, 0, 64), neg, verifSDec32{d: bb[:], nd: nd, dp: dp}, prec)
 	verifReach("R1f.fmtF")
-	verifAssert(verifBytesEq(a, b), "fmtF = strconv.fmtF on every digit count 0..17 and decimal point -6..22")
+	same := len(a) == len(b)
+	for i := 0; same && i < len(a); i++ {
+		same = a[i] == b[i]
+	}
+	verifAssert(same, "fmtF = strconv.fmtF on every digit count 0..17 and decimal point -6..22")
 }
